@@ -13,11 +13,10 @@ from sweeputil import parse_sweep
 PID = 'C14'
 LEVEL = 'exploration'
 REF = 'none'
-Q_VARIANTS = ['plain', 'fat', 'cpu-k8', 'cpu-core2', 'cpu-nehalem', 'cpu-sandybridge', 'cpu-haswellavx', 'cpu-broadwell', 'cpu-skylakeavx', 'cpu-atom', 'cpu-bobcat',
-              'tdbg', 'reent', 'assert']
+Q_VARIANTS = ['plain', 'fat', 'tdbg', 'reent', 'assert'] + ['cpu-' + c for c in bld.CPUS]
 T_VARIANTS = ['plain', 'fat', 'tdbg', 'reent', 'assert', 'pinned'] + ['cpu-' + c for c in bld.CPUS]
 MODS = ['c01', 'c02', 'c03', 'c06', 'c07', 'c08', 'c09', 'c10', 'c11', 'c12', 'c13', 'c16', 'c19']
-RULE = ('variants: every shipped x86_64 CPU path with its tuning table (--build=<cpu>; 11 in quick, all 20 in thorough), --enable-fat, '
+RULE = ('variants: every shipped x86_64 CPU path with its tuning table (--build=<cpu>; all 20 in both tiers), --enable-fat, '
         '--enable-alloca=debug / malloc-reentrant, --enable-assert, default, against the generic-C build (--build=none). Per variant: the case '
         'streams of C01,C02,C03,C06-C13,C16,C19 generated from that variant\'s own gmp-mparam.h (so its crossovers are straddled), run on the variant '
         'and on generic C, judged by the Python oracles and compared reply by reply; kernel sweeps (add/sub/shift/copy/logic/mul_1/addmul_1/'
@@ -146,7 +145,7 @@ def main(argv):
         runner.finish(PID, a.tier, LEVEL, [], dict(evaluations=0, distinct_nontrivial=0, rule=RULE, samples=[]), ASSUMPTIONS, t0, inconclusive='build failed: %s' % e)
     sd = runner.seed()
     nw = 2 if q else 8
-    limit = 250 if q else 2500
+    limit = 150 if q else 2500
     jobs = [(a.tier, v, m, w, nw, sd, limit) for v in variants for m in MODS for w in range(nw)]
     random.Random(sd).shuffle(jobs)
     sjobs = []
